@@ -60,10 +60,21 @@ pub async fn compress_lib(
         metadata: metadata.clone(),
     };
     let input = FragReader::new(source, rs);
-    let mut out: Vec<u8> = Vec::new();
+    // The archive sink is one more dimension no case structure carries: a Vec accepts every buffer whole, a file or a
+    // socket need not. Derived from the case (engine::case_salt), so a replay makes the same choice: half of the cases
+    // write into a sink that takes at most 1 / 7 / 100 / 4096 bytes per call, some of them with Pending in between.
+    let salt = crate::engine::case_salt();
+    let (max_write, pending_every) = match salt % 8 {
+        0 => (1usize, 0usize),
+        1 => (7, 0),
+        2 => (100, 3),
+        3 => (4096, 0),
+        _ => (0, 0),
+    };
+    let mut out = crate::iod::ShortWriter::new(max_write, pending_every);
     let r = create_archive(input, &mut out, &opts).await.map_err(|e| format!("create_archive: {}", e))?;
     let _ = r;
-    Ok(out)
+    Ok(out.data)
 }
 
 #[derive(Clone, Debug, Default)]
